@@ -286,7 +286,15 @@ func (v *parser_) parseCollection() (
 	case "Catalog":
 		var catalog = col.Catalog[any, any](notation).Make()
 		for _, item := range sequence.AsArray() {
-			var association = item.(col.AssociationLike[any, any])
+			var association, isAssociation = item.(col.AssociationLike[any, any])
+			if !isAssociation {
+				var message = v.formatError(token)
+				message += v.generateSyntax("Associations",
+					"Collection",
+					"Items",
+					"Associations")
+				panic(message)
+			}
 			var key = association.GetKey()
 			var value = association.GetValue()
 			catalog.SetValue(key, value)
@@ -295,7 +303,15 @@ func (v *parser_) parseCollection() (
 	case "Map":
 		var map_ = col.Map[any, any](notation).Make()
 		for _, item := range sequence.AsArray() {
-			var association = item.(col.AssociationLike[any, any])
+			var association, isAssociation = item.(col.AssociationLike[any, any])
+			if !isAssociation {
+				var message = v.formatError(token)
+				message += v.generateSyntax("Associations",
+					"Collection",
+					"Items",
+					"Associations")
+				panic(message)
+			}
 			var key = association.GetKey()
 			var value = association.GetValue()
 			map_.SetValue(key, value)
@@ -613,7 +629,7 @@ func (v *parser_) parseItems() (
 ) {
 	// Attempt to parse a sequence of associations.
 	var associations col.Sequential[col.AssociationLike[any, any]]
-	associations, _, ok = v.parseAssociations()
+	associations, token, ok = v.parseAssociations()
 	if ok {
 		var notation = Notation().Make()
 		var list = col.List[any](notation).Make()
@@ -629,7 +645,7 @@ func (v *parser_) parseItems() (
 	// Attempt to parse a sequence of values. NOTE: The values must be attempted
 	// second since it may start with a component which cannot be put back as a
 	// single token.
-	items, _, ok = v.parseValues()
+	items, token, ok = v.parseValues()
 	if ok {
 		// Found a sequence of values.
 		return items, token, true
